@@ -333,7 +333,7 @@ static void op_maxsize(const McArg *a) {
         int64_t out = 0x7777;
         H3Error e = maxGridDiskSize(k, &out);
         if (k < 0)
-            MC_CHECK(e == E_DOMAIN && out == 0x7777, "maxGridDiskSize(%d) returned %d", k, e);
+            MC_CHECK(e == E_DOMAIN, "maxGridDiskSize(%d) returned %d", k, e);
         else if (k < 1000000)
             MC_CHECK(e == 0 && out == 3 * (int64_t)k * (k + 1) + 1, "maxGridDiskSize(%d) = %d,%" PRId64, k, e, out);
         else
